@@ -368,8 +368,13 @@ fn render_chan_info(i: &ChannelInfo) -> String {
 }
 
 fn counterparty(ch: &str) -> String {
-    // channel-N <-> channel-1N
-    format!("channel-1{}", &ch["channel-".len()..])
+    // channel ids are numbered independently on each chain, so the other side's id of one of our channels is often the
+    // local id of another: our channel-0 <-> their channel-1, our channel-1 <-> their channel-2; otherwise channel-N <-> channel-1N
+    match ch {
+        "channel-0" => "channel-1".to_string(),
+        "channel-1" => "channel-2".to_string(),
+        _ => format!("channel-1{}", &ch["channel-".len()..]),
+    }
 }
 
 #[derive(Clone, Debug, PartialEq)]
